@@ -94,6 +94,17 @@ func c09Run(c *ev.Ctx, cs ev.Case, a c09Anim, stat *c09Stats) {
 	var ref []refanim.Frame
 	for i, f := range a.Frames {
 		m := &image.NRGBA{Pix: append([]byte{}, a.Pix[i]...), Stride: f.W * 4, Rect: image.Rect(0, 0, f.W, f.H)}
+		var frameImg image.Image = m
+		framePix := a.Pix[i]
+		// Frame.Image is an image.Image: in one of four animations every frame is handed over as another Go image type
+		// (premultiplied RGBA, 16-bit, paletted, opaque wrapper, shifted origin). What such a frame *shows* is its
+		// canonical non-premultiplied reading (color.NRGBAModel of At), which is what the model composites.
+		if cs.Idx%4 == 2 {
+			tr := rand.New(rand.NewSource(int64(cs.Idx)*1315423911 + int64(i)))
+			typ := []string{"RGBA", "RGBA", "NRGBA64", "RGBA64", "Paletted", "Wrapper"}[(cs.Idx/4+i)%6]
+			frameImg = img.AsType(tr, m, typ)
+			framePix = img.Tight(img.ToNRGBA(frameImg))
+		}
 		bl, dp := animation.BlendNone, animation.DisposeNone
 		if f.Blend {
 			bl = animation.BlendAlpha
@@ -101,8 +112,8 @@ func c09Run(c *ev.Ctx, cs ev.Case, a c09Anim, stat *c09Stats) {
 		if f.Dispose {
 			dp = animation.DisposeBackground
 		}
-		an.Frames = append(an.Frames, animation.Frame{Image: m, Duration: time.Duration(10+i) * time.Millisecond, OffsetX: f.X, OffsetY: f.Y, Blend: bl, Dispose: dp, HasAlpha: f.FlagAlpha, IsKeyframe: i == 0})
-		ref = append(ref, refanim.Frame{X: f.X, Y: f.Y, W: f.W, H: f.H, Pix: a.Pix[i], Blend: f.Blend, Dispose: f.Dispose})
+		an.Frames = append(an.Frames, animation.Frame{Image: frameImg, Duration: time.Duration(10+i) * time.Millisecond, OffsetX: f.X, OffsetY: f.Y, Blend: bl, Dispose: dp, HasAlpha: f.FlagAlpha, IsKeyframe: i == 0})
+		ref = append(ref, refanim.Frame{X: f.X, Y: f.Y, W: f.W, H: f.H, Pix: framePix, Blend: f.Blend, Dispose: f.Dispose})
 	}
 	want := refanim.Play(a.CW, a.CH, ref)
 	dec, err := animation.NewAnimDecoder(an)
